@@ -1,4 +1,4 @@
-import TrionModel.Lemmas.LexExact
+import TrionModel.Lemmas.LexFrame
 import TrionModel.Props.C12Parse
 /-!
 # C12 — exact token positions for every source layout
@@ -98,6 +98,25 @@ theorem stmt_pos_layout (L : List LTok) (trail : Bytes) (h : LOk L trail) :
   intro els err hp
   obtain ⟨firsts, h1, h2, _, h4⟩ := stmt_pos_exact _ _ hex els err hp
   exact ⟨firsts, h1, h2, fun t ht => (h4 t ht).2⟩
+
+/-- C12.L6 `layout_frame`  **Framing.** A layout placed in front of another layout (`LOkTo`: the same conditions,
+the last token's follow condition referring to the first byte of the back part) is a layout, and the tokens are
+those of the front part followed by those of the back part at the positions specified after the front text —
+a statement's tokens and positions do not depend on what follows it, and what precedes it only shifts the
+positions as `Pos.of` prescribes. -/
+theorem layout_frame (L1 L2 : List LTok) (trail : Bytes) (h1 : LOkTo L1 (ltext L2 trail)) (h2 : LOk L2 trail) :
+    tokens (ltext L1 [] ++ ltext L2 trail) =
+      .ok ⟨ltoks [] L1 ++ ltoks (ltext L1 []) L2, none,
+        (Pos.of (ltext L1 [] ++ ltext L2 trail)).1, (Pos.of (ltext L1 [] ++ ltext L2 trail)).2⟩ :=
+  tokens_frame L1 L2 trail h1 h2
+
+/-- C12.L7  The piece lists of `Lex.tokens_pieces` (ASCII white space between canonical spellings) are layouts:
+same text, same tokens — `layout_tokens` subsumes `tokens_pieces`. -/
+theorem pieces_are_layouts (ps : List Piece) (hv : Valid ps none) :
+    ∃ L trail, LOk L trail ∧ ltext L trail = pbytes ps ∧ ltoks [] L = lexed (1, 1) ps := by
+  refine ⟨(toLayout ps []).1, (toLayout ps []).2, toLayout_ok ps hv [] (by simp), ?_, ?_⟩
+  · simpa using toLayout_text ps []
+  · exact toLayout_toks ps [] []
 
 /-! ### non-vacuity -/
 
